@@ -313,3 +313,46 @@ pub fn play_macro(
         }
     }
 }
+
+/// Verification hook: render the replay state (unordered set rendered sorted).
+#[cfg(feature = "verif")]
+pub(crate) fn verif_render_replay_state(s: &Option<DynamicMacroReplayState>, out: &mut String) {
+    use std::fmt::Write;
+    match s {
+        None => {
+            let _ = write!(out, "dmp=None;");
+        }
+        Some(s) => {
+            let mut am: Vec<u16> = s.active_macros.iter().copied().collect();
+            am.sort();
+            let _ = write!(out, "dmp=({:?},{},{:?});", am, s.delay_remaining, s.macro_items);
+        }
+    }
+}
+
+/// Verification hook: render the record state.
+#[cfg(feature = "verif")]
+pub(crate) fn verif_render_record_state(s: &Option<DynamicMacroRecordState>, out: &mut String) {
+    use std::fmt::Write;
+    match s {
+        None => {
+            let _ = write!(out, "dmr=None;");
+        }
+        Some(s) => {
+            let we = s.waiting_event.as_ref().map(|(o, t)| {
+                (
+                    *o,
+                    match t {
+                        WaitingEventType::Press => 'p',
+                        WaitingEventType::Release => 'r',
+                    },
+                )
+            });
+            let _ = write!(
+                out,
+                "dmr=({},{:?},{:?},{});",
+                s.starting_macro_id, we, s.macro_items, s.current_delay
+            );
+        }
+    }
+}
